@@ -353,6 +353,10 @@ func (c *TermCtx) BinBV(op Op, a, b *Term) *Term {
 			if a.op == OpAnd && a.args[1].IsConst() {
 				return c.BinBV(OpAnd, a.args[0], c.Const(w, a.args[1].val&b.val))
 			}
+			// (x | c1) & c2 = (x & c2) | (c1 & c2)
+			if a.op == OpOr && a.args[1].IsConst() {
+				return c.BinBV(OpOr, c.BinBV(OpAnd, a.args[0], b), c.Const(w, a.args[1].val&b.val))
+			}
 		}
 		if a == b {
 			return a
@@ -367,6 +371,13 @@ func (c *TermCtx) BinBV(op Op, a, b *Term) *Term {
 			}
 			if b.val == m {
 				return b
+			}
+			// (y & c1) | c2 with c1 ⊆ c2 is c2
+			if a.op == OpAnd && a.args[1].IsConst() && a.args[1].val&^b.val == 0 {
+				return b
+			}
+			if a.op == OpOr && a.args[1].IsConst() {
+				return c.BinBV(OpOr, a.args[0], c.Const(w, a.args[1].val|b.val))
 			}
 		}
 		if a == b {
